@@ -731,12 +731,12 @@ Section PuppetOp.
     apply po_simple.
     split; [|split; [|split]].
     - destruct b; [apply treq_upd_scope; intros k; reflexivity|].
-      eapply treq_trans; [apply treq_upd_scope; intros k; reflexivity|apply treq_restart].
+      apply (treq_trans sb (upd_scope sb c (sc_shield false))); [apply treq_upd_scope; intros k; reflexivity|apply treq_restart].
     - destruct b; [apply tcb_same_tasks; reflexivity|].
-      eapply tcb_trans; [apply tcb_same_tasks; reflexivity|apply tcb_kframe, kframe_restart].
+      apply (tcb_trans [t] sb (upd_scope sb c (sc_shield false))); [apply tcb_same_tasks; reflexivity|apply tcb_kframe, kframe_restart].
     - destruct b; [apply rq_td_same; reflexivity|].
-      eapply rq_td_trans; [apply rq_td_same; reflexivity|apply rq_td_kframe, kframe_restart].
-    - intros _ Ib. apply (D_set_shield sb c b po_Tb Ib).
+      apply (rq_td_trans sb (upd_scope sb c (sc_shield false))); [apply rq_td_same; reflexivity|apply rq_td_kframe, kframe_restart].
+    - intros _ Ib. pose proof (D_set_shield sb c b po_Tb Ib) as H. destruct b; exact H.
   Qed.
 
   Lemma po_setdeadline c d : SInv (fst (puppet_op s t (ASetDeadline t c d))).
@@ -1351,20 +1351,20 @@ Proof.
   intros I Hin. destruct (c_td _ (si_ctl _ I) t Hin) as [A Ed].
   destruct (c_ok _ (si_ctl _ I) t A) as [_ [_ [_ [Kd _]]]]. specialize (Kd Ed).
   set (s1 := set_ready s (remove_first (HTaskDone t) (ready s))).
-  assert (K1 : nstep [] s s1) by apply ns_remove_first.
+  assert (K1 : nstep [] s s1) by (apply ns_remove_first; intros c; discriminate).
   rewrite run_task_done_eq. change (tasks s1 t) with (tasks s t).
   destruct (k_group (tasks s t)) as [g|] eqn:G.
   2:{ apply (sinv_env s); [exact I|]. eapply ns_trans; [exact K1|apply ns_set_running]. }
   set (s2 := set_running s1 None).
   assert (K2 : nstep [] s s2) by (eapply ns_trans; [exact K1|apply ns_set_running]).
-  pose proof (sinv_env s s2 I K2) as [T2 C2].
-  destruct K2 as [Q2 [B2 Rq2]].
+  pose proof (sinv_env s s2 I K2) as [[T2 C2] D2].
+  destruct K2 as [Q2 [B2 [Rq2 _]]].
   assert (Hn2 : forall x, s_host (scopes s2 x) <> Some t) by (intros x; rewrite (tq_host _ _ Q2); apply Kd).
   set (s3 := td_struct s2 t g).
   pose proof (Tree_td s2 t g T2 Hn2) as T3. fold s3 in T3.
   set (s' := td_tail s3 (tasks s t) g t).
-  pose proof (ns_td_tail [] s3 (tasks s t) g t) as K4. fold s' in K4. destruct K4 as [Q4 [B4 Rq4]].
-  split; [eapply Tree_treq; eauto|].
+  pose proof (ns_td_tail [] s3 (tasks s t) g t) as K4. fold s' in K4. destruct K4 as [Q4 [B4 [Rq4 Dq4]]].
+  split; [split; [eapply Tree_treq; eauto|]|apply Dq4; [now apply Tree_TreeL|now apply D_td_struct]].
   (* fields of s3 relative to s2 *)
   assert (Eh3 : forall x, s_host (scopes s3 x) = s_host (scopes s2 x)).
   { intros x. unfold s3, td_struct. destruct (k_cur (tasks s2 t)) as [c|]; cbn; [|reflexivity].
@@ -1409,24 +1409,40 @@ Proof.
     + intros _. split; [exact A'|exact Ec].
 Qed.
 
+Lemma ns_run_deliver s c :
+  nstep [] s (set_running (deliver_top (set_running (set_ready s (remove_first (HDeliver c) (ready s))) None) c) None).
+Proof.
+  set (s1 := set_running (set_ready s (remove_first (HDeliver c) (ready s))) None).
+  assert (K1 : treq s s1) by (eapply treq_trans; [apply treq_set_ready|apply treq_set_running]).
+  pose proof (kframe_deliver_top s1 c) as K2.
+  split; [|split; [|split]].
+  - eapply treq_trans; [exact K1|]. eapply treq_trans; [apply kframe_treq, K2|apply treq_set_running].
+  - eapply tcb_trans; [apply (tcb_same_tasks [] s s1); reflexivity|].
+    eapply tcb_trans; [apply tcb_kframe, K2|apply tcb_same_tasks; reflexivity].
+  - eapply rq_td_trans; [apply (rq_td_remove_first s (HDeliver c))|].
+    eapply rq_td_trans; [apply (rq_td_same _ s1); reflexivity|].
+    eapply rq_td_trans; [apply rq_td_kframe, K2|apply rq_td_same; reflexivity].
+  - intros T I. apply (DInv_dq (deliver_top s1 c)); [now apply D_run_deliver|apply dq_set_running].
+Qed.
+
 Lemma sinv_run_handle s h : SInv s -> op_ok s (ARun h) = true -> SInv (fst (run_handle s h)).
 Proof.
   intros I Hok. unfold run_handle.
   destruct (existsb (handle_eqb h) (ready s)) eqn:Ex; cbn [negb]; [|exact I].
   apply existsb_handle in Ex.
   set (s1 := set_ready s (remove_first h (ready s))).
-  assert (K1 : nstep [] s s1) by apply ns_remove_first.
-  pose proof (sinv_env s s1 I K1) as I1.
   destruct h as [t|t f|c|t|f tm|c tm].
-  - apply (sinv_resume s1 t None I1). intros f E. discriminate.
-  - apply (sinv_resume s1 t (Some f) I1). intros f' E. inversion E; subst f'.
+  - assert (K1 : nstep [] s s1) by (apply ns_remove_first; intros c; discriminate).
+    apply (sinv_resume s1 t None (sinv_env s s1 I K1)). intros f E. discriminate.
+  - assert (K1 : nstep [] s s1) by (apply ns_remove_first; intros c; discriminate).
+    apply (sinv_resume s1 t (Some f) (sinv_env s s1 I K1)). intros f' E. inversion E; subst f'.
     cbn [op_ok] in Hok. apply opt_eqb_true in Hok. exact Hok.
-  - cbn [fst]. apply (sinv_env s1 _ I1).
-    eapply ns_trans; [apply ns_set_running|]. eapply ns_trans; [|apply ns_set_running].
-    apply ns_kframe, kframe_deliver_top.
+  - cbn [fst]. apply (sinv_env s _ I). apply ns_run_deliver.
   - cbn [fst]. now apply sinv_task_done.
-  - cbn [fst]. apply (sinv_env s1 _ I1). apply ns_fut_complete.
-  - cbn [fst]. apply (sinv_env s1 _ I1).
+  - assert (K1 : nstep [] s s1) by (apply ns_remove_first; intros c; discriminate).
+    cbn [fst]. apply (sinv_env s1 _ (sinv_env s s1 I K1)). apply ns_fut_complete.
+  - assert (K1 : nstep [] s s1) by (apply ns_remove_first; intros c0; discriminate).
+    cbn [fst]. apply (sinv_env s1 _ (sinv_env s s1 I K1)).
     eapply ns_trans; [apply ns_set_running|]. eapply ns_trans; [|apply ns_set_running]. apply ns_scope_timeout.
 Qed.
 
@@ -1521,8 +1537,11 @@ Proof.
   - intros t [].
 Qed.
 
+Lemma DInv_init : DInv init.
+Proof. split; intros c; cbn; discriminate. Qed.
+
 Lemma sinv_init : SInv init.
-Proof. split; [apply Tree_init|apply Ctl_init]. Qed.
+Proof. split; [split; [apply Tree_init|apply Ctl_init]|apply DInv_init]. Qed.
 
 Lemma sinv_final ops : forall s, SInv s -> ops_ok s ops = true -> SInv (final step s ops).
 Proof.
@@ -1534,6 +1553,11 @@ Theorem reach_sinv s : reach_ok s -> SInv s.
 Proof. intros [ops [H ->]]. apply sinv_final; [apply sinv_init|exact H]. Qed.
 
 Theorem reach_tree s : reach_ok s -> Tree s.
+Proof. intros H. apply (reach_sinv s H). Qed.
+
+(* I4: in every reachable state of the domain, a cancelled hosted scope that a live task still reaches has its
+   delivery callback scheduled *)
+Theorem reach_dinv s : reach_ok s -> DInv s.
 Proof. intros H. apply (reach_sinv s H). Qed.
 
 (* prefixes of a run in the domain are in the domain *)
